@@ -67,6 +67,8 @@ type c34inst struct {
 }
 
 type c34obs struct {
+	setupDone bool
+	daemonStopT0, daemonStopRet int // SimpleTimers.Stop() (the daemon stop) was called / returned at these logical times
 	clock int
 	insts []*c34inst
 	log   []string
@@ -84,6 +86,20 @@ func c34build(c c34cfg) vsched.Scenario {
 	ts, err := NewSimpleTimers(1, time.Millisecond)
 	if err != nil {
 		panic(err)
+	}
+	for _, u := range c.users {
+		for _, op := range u {
+			if op == "daemonstop" {
+				// SimpleTimers.Stop() first stops the ContextDaemon, which refuses when it was never started. The real
+				// start func is the ticker loop (not run here, its body iterate() is driven by thread 0); a stand-in that
+				// only waits for its context keeps the daemon "started". context_daemon.go is not instrumented: its
+				// goroutine runs natively and touches nothing the scenario observes.
+				ts.ContextDaemon = NewContextDaemon(func(ctx context.Context) error { <-ctx.Done(); return nil })
+				if err := ts.ContextDaemon.Start(context.Background()); err != nil {
+					panic(err)
+				}
+			}
+		}
 	}
 	userThread := map[int]bool{}
 	register := func(id string, keep bool) *c34inst {
@@ -134,10 +150,14 @@ func c34build(c c34cfg) vsched.Scenario {
 		for _, t := range c.init {
 			register(t.id, t.keep)
 		}
+		o.setupDone = true
 		vsched.Point("setup-done", nil)
 		for _, d := range c.loop {
 			vsched.Advance(d)
 			if err := ts.iterate(context.Background()); err != nil {
+				if o.daemonStopT0 > 0 {
+					break // the whole daemon was stopped: the real loop has ended too
+				}
 				panic(err)
 			}
 		}
@@ -173,6 +193,18 @@ func c34build(c c34cfg) vsched.Scenario {
 					before := o.tick()
 					_ = ts.StopAllTimers()
 					ret := o.tick()
+					for _, in := range o.insts {
+						if in.removedT > before && in.removedT < ret && in.removedBy == vsched.ThreadID() {
+							in.stopRetT = ret
+						}
+					}
+				case "daemonstop":
+					// the daemon is stopped after the timers of the scenario were registered
+					vsched.Point("daemonstop-after-setup", func() bool { return o.setupDone })
+					before := o.tick()
+					_ = ts.Stop()
+					ret := o.tick()
+					o.daemonStopT0, o.daemonStopRet = before, ret
 					for _, in := range o.insts {
 						if in.removedT > before && in.removedT < ret && in.removedBy == vsched.ThreadID() {
 							in.stopRetT = ret
@@ -214,6 +246,19 @@ func c34build(c c34cfg) vsched.Scenario {
 							f := fail("callback-started-after-stop-returned",
 								fmt.Sprintf("instance %s#%d: removed at %d, stop call returned at logical time %d, run() passed its context check at %v, callback started at %d", in.id, in.n, in.removedT, in.stopRetT, in.runChecked, s))
 							f.Sig["context_check_passed_before_removal"] = before
+							return f
+						}
+					}
+				}
+				// P1 (daemon stop): SimpleTimers.Stop() stops every timer registered when it was called - also one it
+				// did not report as removed
+				if o.daemonStopRet > 0 && in.stopRetT == 0 && in.regT > 0 && in.regT < o.daemonStopT0 && (in.removedT == 0 || in.removedT > o.daemonStopRet) {
+					for k, s := range in.cbStarts {
+						if s > o.daemonStopRet {
+							f := fail("callback-started-after-stop-returned",
+								fmt.Sprintf("instance %s#%d was registered when SimpleTimers.Stop() was called (logical time %d) and was not removed by it; Stop returned at %d, run() passed its context check at %v, callback started at %d", in.id, in.n, o.daemonStopT0, o.daemonStopRet, in.runChecked, s))
+							f.Sig["context_check_passed_before_removal"] = k < len(in.runChecked) && in.runChecked[k] < o.daemonStopT0
+							f.Sig["stop"] = "daemon-stop-did-not-remove-the-timer"
 							return f
 						}
 					}
@@ -311,6 +356,13 @@ func TestVerifC34(t *testing.T) {
 				}
 				cfgs = append(cfgs, c34cfg{name: name, init: in, loop: lp, users: up})
 			}
+		}
+	}
+	// SimpleTimers.Stop(), the stop of the whole daemon, with jobs of the last tick still pending
+	for _, in := range [][]c34timerSpec{{{"X", true}}, {{"X", true}, {"Y", true}}} {
+		for _, lp := range loops[:2] {
+			cfgs = append(cfgs, c34cfg{name: "t", init: in, loop: lp, users: [][]string{{"daemonstop"}}})
+			cfgs = append(cfgs, c34cfg{name: "t", init: in, loop: lp, users: [][]string{{"stop:X"}, {"daemonstop"}}})
 		}
 	}
 	r.Set("scenarios_enumerated", len(cfgs))
